@@ -35,7 +35,7 @@ manifest = {
     "setup_cmd": "./check --setup",
     "hooks": {
         "guard": "verif-hooks",
-        "enable": "cargo feature `verif-hooks` of mila, enabled only by the harness package `hooked` (harness/hooked/Cargo.toml: mila = { path = \"/repo\", features = [\"verif-hooks\"] }) and built with `cargo build -p hooked`; every other harness binary is built with `-p props`, i.e. with the feature off. The feature swaps BinArchive's HashMap for a wrapper whose hasher returns checker-registered values for registered keys (std behaviour for all others) and adds BinArchive::verif_iteration_orders; used by the hooked twin of C02 to enumerate hash iteration orders instead of sampling them. All other observation goes through mila's public API; panics/aborts/allocation sizes are observed by the harness's own allocator and subprocess isolation.",
+        "enable": "cargo feature `verif-hooks` of mila, enabled only by the harness package `hooked` (harness/hooked/Cargo.toml: mila = { path = \"/repo\", features = [\"verif-hooks\"] }) and built with `cargo build -p hooked`; every other harness binary is built with `-p props`, i.e. with the feature off. The feature swaps BinArchive's HashMap for a wrapper whose hasher returns checker-registered values for registered keys (std behaviour for all others) and adds BinArchive::verif_iteration_orders; used by the hooked twins of C02 and C03 to enumerate hash iteration orders instead of sampling them. All other observation goes through mila's public API; panics/aborts/allocation sizes are observed by the harness's own allocator and subprocess isolation.",
         "baseline_off_cmd": "cd /repo && cargo test --workspace --no-fail-fast --offline",
         "source_commits": ["c0c5e26"],
         "add_only": True,
